@@ -186,6 +186,11 @@ def main(argv=None):
         print("ENGINE-ERROR: no verification tasks registered (vacuous check)")
         return 3
     summaries = []
+    rdir = os.path.join(ROOT, "replays", prop)
+    if os.path.isdir(rdir) and not a.only:
+        for fn in os.listdir(rdir):
+            if fn.endswith(".json"):
+                os.unlink(os.path.join(rdir, fn))
     ctx = multiprocessing.get_context("fork")
     with ProcessPoolExecutor(max_workers=min(a.jobs, len(tasks)), mp_context=ctx) as ex:
         futs = {ex.submit(explore_task, modname, t.name): t for t in tasks}
